@@ -1846,3 +1846,145 @@ func init() {
 		return append(origCan(c), Canary{Name: "rounding-carry-dropped", File: "routing/gateway.go", Old: "\tlo, carry := bits.Add64(lo, total/2, 0)\n\tq, _ := bits.Div64(hi+carry, lo, total)\n", New: "\tlo, _ = bits.Add64(lo, total/2, 0)\n\tq, _ := bits.Div64(hi, lo, total)\n", Rule: "C40.no-wrap"})
 	}
 }
+
+// ---------------------------------------------------------------------------------------
+// C35 (seed C35b: resetMeta rebuilt the reused scratch message from a struct literal and carried OldRelayVpnAddrs over without
+// truncating it; protobuf unmarshal appends to repeated fields, so the relays host A announced were recorded for host B, the next
+// sender handled by the same handler): what is recorded for an address must come from the message of the tunnel authenticated
+// as that address, so the reused scratch message must not carry any consulted field over from the previous message.
+func c35ScratchReset(c *Ctx) {
+	rule := "C35.scratch-reset"
+	c.Rule(rule, "K2/K11: resetMeta leaves every field of NebulaMetaDetails that any handler reads either at its zero value or truncated to length 0 (x[:0]); the scratch message handed to Unmarshal carries nothing of the previous sender's message", 4)
+	fn := c.Func(Ref{"", "LightHouseHandler", "resetMeta"})
+	det := c.NamedType("", "NebulaMetaDetails")
+	if fn == nil || det == nil {
+		return
+	}
+	st, ok := det.Underlying().(*types.Struct)
+	if !ok {
+		c.Unknown(rule, "NebulaMetaDetails", "not a struct")
+		return
+	}
+	// fields consulted outside the generated code (direct loads and GetX getters)
+	read := map[string]bool{}
+	isGen := func(f *ssa.Function) bool { return strings.HasSuffix(c.P.Fset.Position(f.Pos()).Filename, ".pb.go") }
+	for _, f := range c.moduleFuncs() {
+		if isGen(f) || f == fn {
+			continue
+		}
+		eachInstr(f, func(in ssa.Instruction) {
+			switch x := in.(type) {
+			case *ssa.FieldAddr:
+				if nt := recvNamed(x.X.Type()); nt != nil && nt.Obj() == det.Obj() {
+					// a FieldAddr that is only stored through is a write, anything else counts as a read
+					onlyStore := true
+					for _, r := range *x.Referrers() {
+						if s, isS := r.(*ssa.Store); !isS || s.Addr != ssa.Value(x) {
+							onlyStore = false
+						}
+					}
+					if !onlyStore {
+						read[fieldOfAddr(x).Name()] = true
+					}
+				}
+			case *ssa.Field:
+				if nt := recvNamed(x.X.Type()); nt != nil && nt.Obj() == det.Obj() {
+					read[fieldOfVal(x).Name()] = true
+				}
+			case ssa.CallInstruction:
+				if o := calleeObj(x); o != nil && strings.HasPrefix(o.Name(), "Get") {
+					if sig, ok := o.Type().(*types.Signature); ok && sig.Recv() != nil {
+						if nt := recvNamed(sig.Recv().Type()); nt != nil && nt.Obj() == det.Obj() {
+							read[strings.TrimPrefix(o.Name(), "Get")] = true
+						}
+					}
+				}
+			}
+		})
+	}
+	// what resetMeta stores into the retained struct: field by field, or through a whole-struct store of a literal
+	cleared := func(v ssa.Value) bool {
+		switch x := stripValue(v).(type) {
+		case *ssa.Const:
+			return x.Value == nil || x.Value.ExactString() == "0" || x.Value.ExactString() == "false" || x.Value.ExactString() == `""`
+		case *ssa.Slice:
+			if x.High == nil {
+				return false
+			}
+			k, ok := constInt(x.High)
+			return ok && k == 0
+		}
+		return false
+	}
+	stored := map[string]ssa.Value{}
+	whole := false
+	var lits []ssa.Value
+	eachInstr(fn, func(in ssa.Instruction) {
+		s, ok := in.(*ssa.Store)
+		if !ok {
+			return
+		}
+		if nt := recvNamed(s.Val.Type()); nt != nil && nt.Obj() == det.Obj() {
+			if _, isPtr := s.Val.Type().Underlying().(*types.Pointer); !isPtr {
+				whole = true
+				if u, isU := s.Val.(*ssa.UnOp); isU && u.Op == token.MUL {
+					lits = append(lits, u.X)
+				}
+			}
+		}
+	})
+	eachInstr(fn, func(in ssa.Instruction) {
+		s, ok := in.(*ssa.Store)
+		if !ok {
+			return
+		}
+		fa, ok := s.Addr.(*ssa.FieldAddr)
+		if !ok {
+			return
+		}
+		if nt := recvNamed(fa.X.Type()); nt == nil || nt.Obj() != det.Obj() {
+			return
+		}
+		if whole {
+			isLit := false
+			for _, l := range lits {
+				isLit = isLit || l == fa.X
+			}
+			if !isLit {
+				return // a store before/after the literal replaced the struct: judged through the literal only if it is after; keep conservative
+			}
+		}
+		stored[fieldOfAddr(fa).Name()] = s.Val
+	})
+	n := 0
+	for i := 0; i < st.NumFields(); i++ {
+		name := st.Field(i).Name()
+		if !read[name] {
+			continue
+		}
+		n++
+		v, has := stored[name]
+		switch {
+		case has && cleared(v):
+			c.OK(rule, "resetMeta:"+name, "reset")
+		case has:
+			c.Bad(rule, "resetMeta:"+name, c.P.Pos(fn.Pos()), "the reused lighthouse scratch message keeps NebulaMetaDetails."+name+" ("+exprString(v)+") from the previous message: unmarshal appends to / does not overwrite it, so what one host announced is recorded for the next sender")
+		case whole:
+			c.OK(rule, "resetMeta:"+name, "zero through the struct literal")
+		default:
+			c.Bad(rule, "resetMeta:"+name, c.P.Pos(fn.Pos()), "the reused lighthouse scratch message never resets NebulaMetaDetails."+name+", which handlers read: a value from the previous sender's message survives into the next one")
+		}
+	}
+	if n == 0 {
+		c.Unknown(rule, "resetMeta:fields", "no consulted field of NebulaMetaDetails found")
+	}
+}
+
+func init() {
+	p := registry["C35"]
+	orig, origCan := p.Run, p.Canaries
+	p.Run = func(c *Ctx) { orig(c); c35ScratchReset(c) }
+	p.Canaries = func(c *Ctx) []Canary {
+		return append(origCan(c), Canary{Name: "scratch-keeps-relays-of-previous-message", File: "lighthouse.go", Old: "\tdetails.RelayVpnAddrs = details.RelayVpnAddrs[:0]\n", New: "\tdetails.RelayVpnAddrs = details.RelayVpnAddrs[:cap(details.RelayVpnAddrs)][:len(details.RelayVpnAddrs)]\n", Rule: "C35.scratch-reset"})
+	}
+}
